@@ -1,0 +1,41 @@
+//go:build verif
+
+// Machine-checked contracts for package comdoc (comment-only; see /verif/DESIGN.md).
+
+package comdoc
+
+//@ func freeSectors
+//@   property C18 C11
+//@   nopanic
+//@
+//@ func (*ComDoc).makeFreeSectors
+//@   property C18
+//@   nopanic
+//@   allocbound 0 4 * count
+//@   allocbound 1 4 * count + 4 * r.SectorSize
+//@   requires (r.SectorSize == 512 || r.SectorSize == 4096) && count <= 1073741824
+//@   requires len(r.SAT) <= 1073741824 && len(r.SSAT) <= 1073741824
+//@   loop 0 sig "for i, j := range sat" invariant -1 <= rangeindex && rangeindex < len(sat) && count >= 1 && len(freeList) + count == old(count) && \
+//@        (short ==> sameslice(sat, old(r.SSAT))) && (!short ==> sameslice(sat, old(r.SAT))) && allocated(freeList) && cap(freeList) == old(count)
+//@   loop 0 invariant @table_not_touched_yet (short ==> forall(j, 0, len(sat), sat[j] == old(r.SSAT[j]))) && (!short ==> forall(j, 0, len(sat), sat[j] == old(r.SAT[j])))
+//@   loop 0 invariant @free_list_so_far forall(k, 0, len(freeList), 0 <= freeList[k] && freeList[k] <= rangeindex && sat[freeList[k]] == -1)
+//@   loop 0 invariant @free_list_ascending forall(k, 1, len(freeList), freeList[k-1] < freeList[k])
+//@   loop 1 sig "for i := oldCount; i < len(newSAT); i++" invariant oldCount <= i && i <= len(newSAT) && count >= 0 && len(freeList) + count == old(count) && \
+//@        oldCount == len(sat) && count <= len(newSAT) - i && len(newSAT) <= oldCount + old(count) + 1024 && \
+//@        (r.SectorSize == 512 ==> len(newSAT) == oldCount + needBlocks * 128) && (r.SectorSize == 4096 ==> len(newSAT) == oldCount + needBlocks * 1024) && allocated(freeList) && cap(freeList) == old(count) && \
+//@        (short ==> sameslice(sat, old(r.SSAT))) && (!short ==> sameslice(sat, old(r.SAT))) && (samearr(newSAT, sat) || allocated(newSAT)) && !samearr(freeList, newSAT) && \
+//@        sectorsPerBlock == r.SectorSize / 4 && needBlocks >= 1
+//@   loop 1 invariant @new_cells_are_free forall(j, oldCount, i, newSAT[j] == -1)
+//@   loop 1 invariant @old_cells_unchanged (short ==> forall(j, 0, oldCount, newSAT[j] == old(r.SSAT[j]))) && (!short ==> forall(j, 0, oldCount, newSAT[j] == old(r.SAT[j])))
+//@   loop 1 invariant @free_list_so_far forall(k, 0, len(freeList), 0 <= freeList[k] && freeList[k] < i && newSAT[freeList[k]] == -1)
+//@   loop 1 invariant @free_list_ascending forall(k, 1, len(freeList), freeList[k-1] < freeList[k])
+//@   ensures @nothing_requested count <= 0 ==> len(ret0) == 0 && sameslice(r.SAT, old(r.SAT)) && sameslice(r.SSAT, old(r.SSAT))
+//@   ensures @as_many_as_requested count > 0 ==> len(ret0) == count
+//@   ensures @only_free_short_cells_in_bounds count > 0 && short ==> forall(k, 0, len(ret0), 0 <= ret0[k] && ret0[k] < len(r.SSAT) && r.SSAT[ret0[k]] == -1)
+//@   ensures @only_free_cells_in_bounds count > 0 && !short ==> forall(k, 0, len(ret0), 0 <= ret0[k] && ret0[k] < len(r.SAT) && r.SAT[ret0[k]] == -1)
+//@   ensures @distinct_ascending forall(k, 1, len(ret0), ret0[k-1] < ret0[k])
+//@   ensures @table_only_grows_by_whole_blocks (short ==> len(r.SSAT) >= old(len(r.SSAT)) && (len(r.SSAT) - old(len(r.SSAT))) % (r.SectorSize / 4) == 0) && \
+//@        (!short ==> len(r.SAT) >= old(len(r.SAT)) && (len(r.SAT) - old(len(r.SAT))) % (r.SectorSize / 4) == 0)
+//@   ensures @existing_short_cells_keep_their_value short ==> forall(j, 0, old(len(r.SSAT)), r.SSAT[j] == old(r.SSAT[j]))
+//@   ensures @existing_cells_keep_their_value !short ==> forall(j, 0, old(len(r.SAT)), r.SAT[j] == old(r.SAT[j]))
+//@   ensures @other_table_untouched (short ==> sameslice(r.SAT, old(r.SAT))) && (!short ==> sameslice(r.SSAT, old(r.SSAT)))
